@@ -54,7 +54,8 @@ REQUIRED = ["documents_converted", "rows_compared", "nested_splits", "empty_firs
             "empty_later_alt", "empty_split", "points_after_split", "documents_with_repeated_points",
             "path_converted_again_after_rewrite", "with_comments", "with_colours",
             "deep_documents", "long_branches", "densely_commented_long_documents",
-            "documents_with_zero_radius_points", "prefixes_tried", "prefixes_rejected",
+            "documents_with_zero_radius_points", "paths_spelled_through_links_or_relative",
+            "prefixes_tried", "prefixes_rejected",
             "corruptions_tried", "corruptions_rejected", "entry_from_stream", "entry_convert",
             "entry_call", "comment_invariance_checked", "tap_parser_raise"]
 FLOOR = {"quick": 1500, "thorough": 30000}
@@ -300,6 +301,7 @@ def to_text(toks, rseed, upto=None):
 
 # ------------------------------------------------------------------------------ monitors
 _BUDGET = None
+_PATH_SPELLINGS = [0]
 
 
 def budget():
@@ -333,6 +335,28 @@ def convert(entry, text, tmp):
             _PATH_REUSE[0] += 1
         with open(path, "w") as f:
             f.write(text)
+        sp = (len(text) // 2) % 5
+        if sp == 1:
+            # reached through '<link to a directory>/..': the operating system resolves the link
+            # first (the parent of the link's target), a lexical clean-up of the string would
+            # land next to the link instead, where another file of the same name lies
+            os.makedirs(os.path.join(tmp, "store", "s1"), exist_ok=True)
+            os.makedirs(os.path.join(tmp, "work"), exist_ok=True)
+            real = os.path.join(tmp, "store", "doc.asc")
+            os.replace(path, real)
+            with open(os.path.join(tmp, "work", "doc.asc"), "w") as f:
+                f.write("( (Dendrite) (9 9 9 9) (8 8 8 8) (7 7 7 7) )\n")
+            link = os.path.join(tmp, "work", "current")
+            if not os.path.islink(link):
+                os.symlink(os.path.join(tmp, "store", "s1"), link)
+            path = os.path.join(link, "..", "doc.asc")
+            _PATH_SPELLINGS[0] += 1
+        elif sp == 2:
+            path = os.path.relpath(path, os.getcwd())
+            _PATH_SPELLINGS[0] += 1
+        elif sp == 3:
+            path = os.path.join(tmp, ".", "") + os.sep + "doc.asc"
+            _PATH_SPELLINGS[0] += 1
         if entry == "convert":
             fn = lambda: NeurolucidaAscToSwc.convert(path)  # noqa: E731
         else:
@@ -541,6 +565,7 @@ def run(ctx):
             ctx.case(case, klass="corrupt")
             execute(ctx, case)
     ctx.count("path_converted_again_after_rewrite", _PATH_REUSE[0])
+    ctx.count("paths_spelled_through_links_or_relative", _PATH_SPELLINGS[0])
     ctx.count("tap_parser_raise", rt.raises["parse"])
     ctx.count("tap_parser_return", rt.returns["parse"])
 
